@@ -16,7 +16,7 @@ import (
 
 func genExec(prop string, minProv, maxProv int, asyncMode string, needErr bool) func(rt *rapid.T, c *Ctx) KCase {
 	return func(rt *rapid.T, c *Ctx) KCase {
-		o := execOpts(c, spec.Opts{MinProv: minProv, MaxProv: maxProv, MaxInjectors: 2, MaxFiles: 1, AsyncMode: asyncMode})
+		o := execOpts(c, spec.Opts{MinProv: minProv, MaxProv: maxProv, MaxInjectors: 2, MaxFiles: 2, AsyncMode: asyncMode})
 		if asyncMode == "" {
 			o.AsyncMode = rapid.SampledFrom([]string{"some", "some", "all"}).Draw(rt, "asyncmode")
 		}
